@@ -22,7 +22,7 @@ FLOOR = {"quick": 150, "thorough": 3000}
 REQUIRED_COUNTERS = ["generations_accepted", "files_compiled", "modules_imported", "all_names_resolved", "probe_runs"]
 RULE = ("documents drawn from the seeded OpenAPI grammar (schema graphs with refs, allOf, oneOf/anyOf, arrays, maps, enums, nullable, "
         "formats, 5 property-name styles; operations with path/query/header params, path-level params, json/form/multipart/octet "
-        "bodies, several 2xx/4xx/5xx/default responses) x 8 layouts x 3 naming strategies; a case = (document, layout, strategy); "
+        "bodies, several 2xx/4xx/5xx/default responses) x 9 layouts x 3 naming strategies; a case = (document, layout, strategy); "
         "non-trivial = accepted document with >=1 operation and >=2 schemas joined by a reference")
 ASSUMPTIONS = ["fresh interpreter = /venv/bin/python -I with the generator blocked by a meta-path finder (the venv itself has more "
                "than httpx+cattrs installed; imports of anything else are judged by C12's import audit)",
@@ -30,7 +30,7 @@ ASSUMPTIONS = ["fresh interpreter = /venv/bin/python -I with the generator block
 
 LAYOUTS = [("c{n}", None), ("acme{n}.client1", None), ("acme{n}.apis.client1", None),
            ("c{n}", "c{n}.core"), ("acme{n}.client1", "acme{n}.core"), ("acme{n}.apis.client1", "acme{n}.shared.core"),
-           ("c{n}", "sharedcore{n}"), ("acme{n}.apis.client1", "corepkg{n}.rt.core")]
+           ("c{n}", "sharedcore{n}"), ("acme{n}.apis.client1", "corepkg{n}.rt.core"), ("c{n}", "c{n}_core")]
 STRATEGIES = ["operationId", "clean", "path"]
 
 # trigger classes: feature flag -> open finding they exercise (documents from these never count as clean)
